@@ -361,6 +361,7 @@ class DeltaEJC(_JitConcrete, DeltaEJ):
         for rows, NI, vals, Ne in self.tables(rng, tier):
             L = len(rows)
             for occ in itertools.product((0, 1), repeat=L):
+                j = make_jit(rows, NI, vals, Ne, occ)          # one compiled object per occupation: the call only writes its scratch array
                 for o in range(L):
                     for u in range(L):
-                        yield make_jit(rows, NI, vals, Ne, occ), (o, u)
+                        yield j, (o, u)
